@@ -51,7 +51,8 @@ def run(tier, seed):
                              LeaderOffset=3, ByzBudget=8, ByzActs="AllActs", Macro="FALSE", invariants=INV,
                              workers=4 if tier == "quick" else 12)
     transitions += gen2
-    res, inp = Q.replay(PROP, behs + behs2, "sim")
+    faulty = Q.faulty_copies(behs, len(behs) // 2)
+    res, inp = Q.replay(PROP, behs + behs2 + faulty, "sim")
     Q.collect(PROP, res, verdict, inp, foreign)
     # ---- 3. attack traces (weakened specs) replayed on the real code ----
     abehs, stale = Q.attack_behaviours(PROP, tier, PROP)
